@@ -201,6 +201,14 @@ int parse_instruction_6800(AsmContext *asm_context, char *instr)
 
         if (asm_context->memory_read(asm_context->address) == 2)
         {
+          // Pass 1 checked a placeholder if the operand is a forward reference.
+          if (asm_context->pass == 2 &&
+              (operand_value < 0 || operand_value > 0xffff))
+          {
+            print_error_range(asm_context, "Address", 0, 0xffff);
+            return -1;
+          }
+
           add_bin8(asm_context, n, IS_OPCODE);
           add_bin8(asm_context, operand_value >> 8, IS_OPCODE);
           add_bin8(asm_context, operand_value & 0xff, IS_OPCODE);
